@@ -36,6 +36,8 @@ import (
 )
 
 const (
+	exemptFetch     = "c12.(*world).Fetch("
+	exemptAuction   = "c12.(*world).BuilderBid("
 	refreshJob      = "Fetch execution configuration"
 	registrationJob = "Submit validator registrations"
 	placeholderName = "<unknown>/<unknown>"
@@ -254,8 +256,10 @@ func dumpGoroutines() []gor {
 		}
 		g.isOp = strings.Contains(blk, "c12.opGoroutine(")
 		g.inPkg = strings.Contains(blk, "vouch/services/blockrelay/standard.")
-		g.parked = (strings.HasPrefix(g.state, "sync.RWMutex") || strings.HasPrefix(g.state, "sync.Mutex") || strings.HasPrefix(g.state, "semacquire")) &&
-			(strings.Contains(blk, "sync.(*RWMutex)") || strings.Contains(blk, "sync.(*Mutex)"))
+		// parked: waiting for a mutex, or for a WaitGroup (which only other
+		// goroutines of the package can complete)
+		g.parked = (strings.HasPrefix(g.state, "sync.RWMutex") || strings.HasPrefix(g.state, "sync.Mutex") || strings.HasPrefix(g.state, "sync.WaitGroup") || strings.HasPrefix(g.state, "semacquire")) &&
+			(strings.Contains(blk, "sync.(*RWMutex)") || strings.Contains(blk, "sync.(*Mutex)") || strings.Contains(blk, "sync.(*WaitGroup).Wait"))
 		res = append(res, g)
 	}
 	return res
@@ -263,9 +267,11 @@ func dumpGoroutines() []gor {
 
 // blockedOps returns the ids of this case's pending op goroutines if every one
 // of them and every other live goroutine inside the block-relay package is
-// parked on a mutex; nil otherwise.  With duringFetch, the goroutine that sits in
-// the (deliberately slow) configuration source is left out of both conditions.
-func blockedOps(pending int, duringFetch bool) ([]string, string) {
+// parked on a mutex (or on a WaitGroup nobody is left to complete); nil
+// otherwise.  A goroutine that sits in the harness' own double named by exempt
+// (the deliberately slow configuration source, the deliberately held auction) is
+// left out of both conditions.
+func blockedOps(pending int, exempt string) ([]string, string) {
 	abandonedMu.Lock()
 	defer abandonedMu.Unlock()
 	var ids, where []string
@@ -273,7 +279,7 @@ func blockedOps(pending int, duringFetch bool) ([]string, string) {
 		if abandoned[g.id] {
 			continue
 		}
-		if duringFetch && strings.Contains(g.text, "c12.(*world).Fetch(") {
+		if exempt != "" && strings.Contains(g.text, exempt) {
 			continue
 		}
 		if g.isOp {
@@ -287,6 +293,30 @@ func blockedOps(pending int, duringFetch bool) ([]string, string) {
 		}
 	}
 	if len(ids) != pending || pending == 0 {
+		return nil, ""
+	}
+	sort.Strings(ids)
+	sort.Strings(where)
+	return ids, strings.Join(where, "; ")
+}
+
+// startupParked returns the goroutines inside the block-relay package if there
+// are some and all of them are parked on a lock or wait group.
+func startupParked() ([]string, string) {
+	abandonedMu.Lock()
+	defer abandonedMu.Unlock()
+	var ids, where []string
+	for _, g := range dumpGoroutines() {
+		if abandoned[g.id] || !g.inPkg {
+			continue
+		}
+		if !g.parked {
+			return nil, ""
+		}
+		ids = append(ids, g.id)
+		where = append(where, topPkgFrame(g.text)+" ["+g.state+"]")
+	}
+	if len(ids) == 0 {
 		return nil, ""
 	}
 	sort.Strings(ids)
@@ -338,6 +368,8 @@ type runner struct {
 	badRefreshSeen, requestAfterBad, refreshAfterRequest bool
 	known                                                func(sig string) bool
 	refreshDone, inFinal                                 bool
+	hold                                                 *holdCtl // non-nil while an auction is held in the bid provider
+	holdWhat                                             string
 }
 
 func (r *runner) violate(sig, format string, args ...any) {
@@ -564,16 +596,16 @@ func (r *runner) doOp(op *Op, res *opResult) {
 // await waits until `want` more completions have arrived.  It returns "" when
 // they did, a description when the calls still pending are structurally
 // confirmed to be parked on a lock (two identical samples), and sets harness when
-// neither could be established in time.  With duringFetch the refresh that sits
-// in the slow source does not count as pending.
-func (r *runner) await(done <-chan int, want int, duringFetch bool, isRefresh func(int) bool) (got int, blocked string, harness string) {
+// neither could be established in time.  With exempt (see blockedOps) the call
+// that sits in the harness' own double does not count as pending.
+func (r *runner) await(done <-chan int, want int, exempt string, isRefresh func(int) bool) (got int, blocked string, harness string) {
 	deadline := time.Now().Add(watchdog)
 	var last []string
 	wait := 300 * time.Millisecond
 	for got < want {
 		select {
 		case i := <-done:
-			if duringFetch && isRefresh(i) {
+			if isRefresh != nil && isRefresh(i) {
 				// a refresh that did not need the source (no accounts): fine
 				r.refreshDone = true
 				continue
@@ -583,9 +615,9 @@ func (r *runner) await(done <-chan int, want int, duringFetch bool, isRefresh fu
 		case <-time.After(wait):
 		}
 		wait = 250 * time.Millisecond
-		ids, where := blockedOps(want-got, duringFetch)
+		ids, where := blockedOps(want-got, exempt)
 		if ids != nil && reflect.DeepEqual(ids, last) {
-			if !duringFetch {
+			if exempt == "" {
 				abandonedMu.Lock()
 				for _, id := range ids {
 					abandoned[id] = true
@@ -737,7 +769,7 @@ func (r *runner) step(si int, ops []Op) (cont bool, harness string) {
 	if slow {
 		// everything but the refresh has to complete while the source has not answered yet
 		r.refreshDone = false
-		got, blocked, harness := r.await(done, len(ops)-1, true, func(i int) bool { return ops[i].Kind == "refresh" })
+		got, blocked, harness := r.await(done, len(ops)-1, exemptFetch, func(i int) bool { return ops[i].Kind == "refresh" })
 		r.w.mu.Lock()
 		r.w.gate = nil
 		r.w.mu.Unlock()
@@ -753,12 +785,34 @@ func (r *runner) step(si int, ops []Op) (cont bool, harness string) {
 			remaining--
 		}
 	}
-	_, blocked, harness := r.await(done, remaining, false, nil)
+	exempt := ""
+	if r.hold != nil {
+		exempt = exemptAuction
+	}
+	got, blocked, harness := r.await(done, remaining, exempt, nil)
 	if harness != "" {
 		return false, harness
 	}
+	if blocked != "" && r.hold != nil {
+		// an auction is being held by the harness' bid provider: nothing may wait for it
+		sig := "request-blocked-by-auction"
+		if ops[0].Kind == "refresh" {
+			sig = "refresh-blocked-by-auction"
+		}
+		r.violate(sig, "step %d %s, issued while %s is waiting for its relays, does not return until the auction ends; locks that cannot be taken: %s; parked: %s", si, describe(ops), r.holdWhat, r.heldLocks(), blocked)
+		r.releaseHold()
+		_, blocked, harness = r.await(done, remaining-got, "", nil)
+		if harness != "" {
+			return false, harness
+		}
+	}
 	if blocked != "" {
-		r.violate("blocked-on:"+r.heldLocks(), "step %d %s: calls never return; every goroutine inside the block relay is parked on a lock: %s", si, describe(ops), blocked)
+		sig := "blocked-on:" + r.heldLocks()
+		if sig == "blocked-on:" {
+			// no lock involved: name the place instead (e.g. a WaitGroup that is never completed)
+			sig = "blocked-in:" + strings.SplitN(blocked, " [", 2)[0]
+		}
+		r.violate(sig, "step %d %s: calls never return; every goroutine inside the block relay is parked on a lock or wait group: %s", si, describe(ops), blocked)
 		return false, ""
 	}
 	r.cur = after
@@ -780,64 +834,153 @@ func (r *runner) step(si int, ops []Op) (cont bool, harness string) {
 		bySlot[pc.slot] = append(bySlot[pc.slot], pc)
 	}
 	for i := range ops {
-		op, res := &ops[i], &results[i]
-		where := fmt.Sprintf("step %d op %d %s (configuration in force: %s)", si, i, describeOp(op), r.describeStates(states))
-		if res.panic != "" {
-			r.violate("panic:"+strings.SplitN(res.panic, ":", 2)[0], "%s panicked: %s", where, res.panic)
-			continue
-		}
-		if res.jobMissing {
-			name, what := refreshJob, "refresh"
-			if op.Kind == "registration" {
-				name, what = registrationJob, "registration"
-			}
-			if !r.jobDropped(name) {
-				return false, "periodic job " + name + " vanished without the scheduler having dropped it"
-			}
-			r.violate(what+"-job-cancelled", "%s: the periodic job %q is no longer scheduled: the context vouch scheduled it with has ended", where, name)
-			return false, ""
-		}
-		v := *r.validator(op.Validator)
-		switch op.Kind {
-		case "lookup":
-			v.NoAccount = v.NoAccount || op.NilAccount
-			e := expect(states, &v, r.c.FallbackFee, r.c.FallbackGas)
-			if states[len(states)-1].badAt >= 0 && e.errOK {
-				r.labels["lookup-meets-unresolvable-entry"] = true
-			}
-			switch {
-			case res.err != nil && !e.errOK:
-				r.violate("lookup-failed-on-resolvable-config", "%s failed: %v; acceptable: %s", where, res.err, e)
-			case res.err == nil && !e.accepts(res.cfg):
-				r.violate("lookup-differs-from-last-good-config", "%s returned %s; acceptable: %s", where, show(res.cfg), e)
-			}
-		case "auction", "builderbid":
-			if op.Kind == "builderbid" {
-				v.NoAccount = true // the REST path has no account object
-			}
-			calls := bySlot[op.Slot]
-			if op.Kind == "auction" && op.Validator >= len(r.c.Validators) {
-				// not a validator Vouch knows: only "returns" is demanded
-				continue
-			}
-			e := expect(states, &v, r.c.FallbackFee, r.c.FallbackGas)
-			if op.Kind == "auction" && states[len(states)-1].badAt >= 0 && e.errOK && !e.resolvable {
-				r.labels["auction-meets-unresolvable-entry"] = true
-			}
-			for _, pc := range calls {
-				if !e.accepts(pc.config) {
-					r.violate("auction-settings-differ-from-last-good-config", "%s auctioned with %s; acceptable: %s", where, show(pc.config), e)
-				}
-			}
-			if op.Kind == "auction" && res.err == nil && len(calls) == 0 && e.allRelays && !e.errOK {
-				r.violate("auction-skipped-configured-relays", "%s returned without asking the bid provider although relays are configured: %s", where, e)
-			}
-			if len(calls) > 0 {
-				r.labels["auction-reached-bid-provider"] = true
-			}
+		if cont, h := r.judgeOp(si, i, &ops[i], &results[i], states, bySlot); !cont || h != "" {
+			return cont, h
 		}
 	}
-	r.checkLocks(fmt.Sprintf("after step %d %s", si, describe(ops)))
+	if r.hold == nil {
+		r.checkLocks(fmt.Sprintf("after step %d %s", si, describe(ops)))
+	}
+	return true, ""
+}
+
+// judgeOp judges one completed call against the states that may have been in
+// force while it ran.
+func (r *runner) judgeOp(si, i int, op *Op, res *opResult, states []state, bySlot map[uint64][]providerCall) (cont bool, harness string) {
+	where := fmt.Sprintf("step %d op %d %s (configuration in force: %s)", si, i, describeOp(op), r.describeStates(states))
+	if res.panic != "" {
+		r.violate("panic:"+strings.SplitN(res.panic, ":", 2)[0], "%s panicked: %s", where, res.panic)
+		return true, ""
+	}
+	if res.jobMissing {
+		name, what := refreshJob, "refresh"
+		if op.Kind == "registration" {
+			name, what = registrationJob, "registration"
+		}
+		if !r.jobDropped(name) {
+			return false, "periodic job " + name + " vanished without the scheduler having dropped it"
+		}
+		r.violate(what+"-job-cancelled", "%s: the periodic job %q is no longer scheduled: the context vouch scheduled it with has ended", where, name)
+		return false, ""
+	}
+	v := *r.validator(op.Validator)
+	switch op.Kind {
+	case "lookup":
+		v.NoAccount = v.NoAccount || op.NilAccount
+		e := expect(states, &v, r.c.FallbackFee, r.c.FallbackGas)
+		if states[len(states)-1].badAt >= 0 && e.errOK {
+			r.labels["lookup-meets-unresolvable-entry"] = true
+		}
+		switch {
+		case res.err != nil && !e.errOK:
+			r.violate("lookup-failed-on-resolvable-config", "%s failed: %v; acceptable: %s", where, res.err, e)
+		case res.err == nil && !e.accepts(res.cfg):
+			r.violate("lookup-differs-from-last-good-config", "%s returned %s; acceptable: %s", where, show(res.cfg), e)
+		}
+	case "auction", "builderbid":
+		if op.Kind == "builderbid" {
+			v.NoAccount = true // the REST path has no account object
+		}
+		calls := bySlot[op.Slot]
+		if op.Kind == "auction" && op.Validator >= len(r.c.Validators) {
+			// not a validator Vouch knows: only "returns" is demanded
+			return true, ""
+		}
+		e := expect(states, &v, r.c.FallbackFee, r.c.FallbackGas)
+		if op.Kind == "auction" && states[len(states)-1].badAt >= 0 && e.errOK && !e.resolvable {
+			r.labels["auction-meets-unresolvable-entry"] = true
+		}
+		for _, pc := range calls {
+			if !e.accepts(pc.config) {
+				r.violate("auction-settings-differ-from-last-good-config", "%s auctioned with %s; acceptable: %s", where, show(pc.config), e)
+			}
+		}
+		if op.Kind == "auction" && res.err == nil && len(calls) == 0 && e.allRelays && !e.errOK {
+			r.violate("auction-skipped-configured-relays", "%s returned without asking the bid provider although relays are configured: %s", where, e)
+		}
+		if len(calls) > 0 {
+			r.labels["auction-reached-bid-provider"] = true
+		}
+	}
+	return true, ""
+}
+
+func (r *runner) releaseHold() {
+	if r.hold != nil {
+		r.hold.releaseOnce.Do(func() { close(r.hold.release) })
+		r.hold = nil
+	}
+}
+
+// heldStep runs ops[0] (an auction) with a bid provider that does not answer
+// until the harness says so, issues the other calls one after the other while
+// the auction is waiting (each must return although the auction has not), then
+// lets the auction finish.
+func (r *runner) heldStep(si int, ops []Op) (cont bool, harness string) {
+	auction := &ops[0]
+	before := r.cur
+	h := &holdCtl{entered: make(chan struct{}), release: make(chan struct{})}
+	r.w.mu.Lock()
+	r.w.hold[auction.Slot] = h
+	r.w.mu.Unlock()
+	defer func() {
+		r.releaseHold()
+		h.releaseOnce.Do(func() { close(h.release) })
+		r.w.mu.Lock()
+		delete(r.w.hold, auction.Slot)
+		r.w.mu.Unlock()
+	}()
+	if r.badRefreshSeen {
+		r.requestAfterBad = true
+	}
+	nCalls := r.w.nCalls()
+	var res opResult
+	start := make(chan struct{})
+	done := make(chan int, 1)
+	go opGoroutine(r, 0, auction, &res, start, done)
+	close(start)
+	finished := false
+	select {
+	case <-h.entered:
+		r.hold, r.holdWhat = h, describeOp(auction)
+		r.labels["requests-while-auction-pending"] = true
+	case <-done:
+		finished = true // no relays, unknown validator, unresolvable settings: nothing to hold
+	case <-time.After(watchdog):
+		_, blocked, hp := r.await(done, 1, "", nil)
+		if hp != "" || blocked == "" {
+			return false, "held auction neither reached the bid provider nor returned: " + hp
+		}
+		r.violate("blocked-on:"+r.heldLocks(), "step %d %s never returns: %s", si, describeOp(auction), blocked)
+		return false, ""
+	}
+	for i := 1; i < len(ops); i++ {
+		if cont, hp := r.step(si, ops[i:i+1]); !cont || hp != "" {
+			return cont, hp
+		}
+	}
+	if !finished {
+		r.releaseHold()
+		h.releaseOnce.Do(func() { close(h.release) })
+		_, blocked, hp := r.await(done, 1, "", nil)
+		if hp != "" {
+			return false, hp
+		}
+		if blocked != "" {
+			r.violate("blocked-on:"+r.heldLocks(), "step %d %s never returns after its bid provider answered: %s", si, describeOp(auction), blocked)
+			return false, ""
+		}
+	}
+	bySlot := map[uint64][]providerCall{}
+	for _, pc := range r.w.callsSince(nCalls) {
+		if pc.slot == auction.Slot {
+			bySlot[pc.slot] = append(bySlot[pc.slot], pc)
+		}
+	}
+	if cont, hp := r.judgeOp(si, 0, auction, &res, before, bySlot); !cont || hp != "" {
+		return cont, hp
+	}
+	r.checkLocks(fmt.Sprintf("after step %d held %s", si, describe(ops)))
 	return true, ""
 }
 
@@ -887,7 +1030,7 @@ func runCase(c *Case, known func(string) bool) (viols []violation, labels map[st
 	for _, d := range c.Docs {
 		r.docs = append(r.docs, localise(d))
 	}
-	r.w = &world{validators: c.Validators, accountsMode: "ok", bidMode: map[uint64]string{}}
+	r.w = &world{validators: c.Validators, accountsMode: "ok", bidMode: map[uint64]string{}, hold: map[uint64]*holdCtl{}}
 	for _, st := range c.Steps {
 		for _, op := range st.Ops {
 			if op.Slot != 0 {
@@ -951,6 +1094,8 @@ func runCase(c *Case, known func(string) bool) (viols []violation, labels map[st
 	}
 	// New starts the first registration round on a goroutine of its own: let it finish.
 	deadline := time.Now().Add(watchdog)
+	started, lastSample := time.Now(), time.Now()
+	var lastIDs []string
 	for {
 		r.w.mu.Lock()
 		n := r.w.accountsCalls
@@ -963,6 +1108,23 @@ func runCase(c *Case, known func(string) bool) (viols []violation, labels map[st
 			return nil, r.labels, false, "the initial registration round did not finish"
 		}
 		time.Sleep(time.Millisecond)
+		// The round runs on a goroutine started by New; if it (and everything else
+		// in the package) is parked on a lock or wait group in two samples it will
+		// never finish.
+		if time.Since(started) > 400*time.Millisecond && time.Since(lastSample) > 250*time.Millisecond {
+			lastSample = time.Now()
+			ids, where := startupParked()
+			if ids != nil && reflect.DeepEqual(ids, lastIDs) {
+				abandonedMu.Lock()
+				for _, id := range ids {
+					abandoned[id] = true
+				}
+				abandonedMu.Unlock()
+				r.violate("blocked-in:"+strings.SplitN(where, " [", 2)[0], "the registration round that New starts never returns: %s", where)
+				return r.viols, r.labels, false, ""
+			}
+			lastIDs = ids
+		}
 	}
 	r.w.mu.Lock()
 	r.w.accountsMode = "ok"
@@ -993,13 +1155,24 @@ func runCase(c *Case, known func(string) bool) (viols []violation, labels map[st
 	r.checkLocks("after construction")
 
 	for si := range c.Steps {
-		cont, h := r.step(si, c.Steps[si].Ops)
+		var cont bool
+		var h string
+		if c.Steps[si].Held && len(c.Steps[si].Ops) > 1 && c.Steps[si].Ops[0].Kind == "auction" {
+			cont, h = r.heldStep(si, c.Steps[si].Ops)
+		} else {
+			cont, h = r.step(si, c.Steps[si].Ops)
+		}
 		if h != "" {
 			return r.viols, r.labels, false, h
 		}
 		if !cont {
 			return r.viols, r.labels, r.badRefreshSeen && r.requestAfterBad, ""
 		}
+	}
+	// A registration round with whatever configuration is in force at the end
+	// (it may name a relay no client can be made for) must return.
+	if cont, h := r.step(len(c.Steps), []Op{{Kind: "registration"}}); h != "" || !cont {
+		return r.viols, r.labels, r.badRefreshSeen && r.requestAfterBad, h
 	}
 	// A further refresh and further requests must still complete and take effect.
 	final := Doc{Version: 2, V2: &V2{Fields: Fields{Fee: hexOf(0x77, 20), Gas: "31000000"}, Relays: []Relay{{Addr: relayBase() + "/final"}}}}
